@@ -59,6 +59,19 @@ def create(spec: dict):
     Shuffles.A = spec.get('shufA', 1)
     Shuffles.B = spec.get('shufB', 0)
     autos = tuple(a for a in ALL_AUTOS if a.value in spec['autos'])
+    if spec.get('chips') == 'fraction':
+        # the same amounts as Fraction objects: the engine then divides pots exactly instead of in whole chips
+        from fractions import Fraction
+        pk.Units.den = pk.Units.FINE
+        spec = dict(spec)
+        for k in ('antes', 'blinds', 'stacks'):
+            spec[k] = [Fraction(x) for x in spec[k]]
+        for k in ('bringin', 'sb', 'bb'):
+            spec[k] = Fraction(spec[k])
+        if 'streets' in spec:
+            spec['streets'] = [dict(s, minbet=Fraction(s['minbet'])) for s in spec['streets']]
+    else:
+        pk.Units.den = 1
     mode = Mode.TOURNAMENT if spec['mode'] == 'T' else Mode.CASH_GAME
     kw = dict(mode=mode, starting_board_count=spec.get('boards0', 1), rake=pk.make_rake(spec.get('rake')))
     v = spec['variant']
@@ -104,7 +117,7 @@ class Last:
 
 
 def random_spec(rng: random.Random, *, variants=None, autos='random', mode=None, max_n=None, stacks='mixed',
-                boards=(1, 1, 1, 2), rake_p=0.15, ante_p=0.5, straddle_p=0.2, no_autos=(), via_phh=False) -> dict:
+                boards=(1, 1, 1, 2), rake_p=0.15, ante_p=0.5, straddle_p=0.2, no_autos=(), via_phh=False, chips=None) -> dict:
     v = rng.choice(variants or list(VARIANTS))
     fam = VARIANTS[v][2]
     kind = VARIANTS[v][1]
@@ -134,6 +147,8 @@ def random_spec(rng: random.Random, *, variants=None, autos='random', mode=None,
         spec['autos'] = list(autos)
     spec['autos'] = [a for a in spec['autos'] if a not in no_autos]
     spec['mode'] = mode or rng.choice('TC')
+    if chips:
+        spec['chips'] = chips
     if via_phh:
         spec['via_phh'] = True
         spec['mode'] = 'C'
